@@ -990,15 +990,17 @@ class Dosini(object):
                 references = references.split()
 
                 status[stage_index] = {
-                    'stage-weight': stage_weight,
                     'executable': executable,
                     'arguments': arguments,
                     'references': references,
                 }
             else:
-                status[stage_index] = {
-                    'stage-weight': stage_weight
-                }
+                status[stage_index] = {}
+
+            # VV: stage-weight is optional, when it is missing FlowIR fills in a default value (a `None` weight
+            # makes FlowIR.inject_default_values() raise a TypeError)
+            if stage_weight is not None:
+                status[stage_index]['stage-weight'] = stage_weight
         if FlowIR.FieldStatusReport not in flowir:
             flowir[FlowIR.FieldStatusReport] = {}
 
